@@ -187,8 +187,15 @@ func handleSUR() diam.HandlerFunc {
 			sua.ServiceRating.Price = monetaryCost
 		// price for the reserved units
 		case charging_datatype.REQ_SUBTYPE_RESERVE:
-			sua.ServiceRating.AllowedUnits = sr.MonetaryQuota / unitCost
-			sua.ServiceRating.Price = sua.ServiceRating.AllowedUnits * unitCost
+			if unitCost == 0 {
+				// a stored tariff of "0", "" or malformed text yields no unit cost:
+				// allow nothing rather than divide by zero
+				sua.ServiceRating.AllowedUnits = datatype.Unsigned32(0)
+				sua.ServiceRating.Price = datatype.Unsigned32(0)
+			} else {
+				sua.ServiceRating.AllowedUnits = sr.MonetaryQuota / unitCost
+				sua.ServiceRating.Price = sua.ServiceRating.AllowedUnits * unitCost
+			}
 		default:
 			logger.RatingLog.Warnf("Unknow request type")
 			sua.ServiceRating.AllowedUnits = datatype.Unsigned32(0)
